@@ -192,10 +192,16 @@ func textHeavyArgs(r *rand.Rand) reflect.Type {
 // request sent, and every value a resolver received must be one that was
 // sent. Run under the race detector this also reports any unsynchronised
 // state shared by the argument parsers of a schema.
-func ConcurrentCase(run *vlib.Run, i int) {
+//
+// static selects the args struct from the compile-time pool (ordinary Go types
+// and closures only); otherwise it is a generated reflect.StructOf shape served
+// by a reflect.MakeFunc field func.
+func ConcurrentCase(run *vlib.Run, i int, static bool) {
 	r := run.Rand("concurrent", i)
 	var argsT reflect.Type
-	if r.Intn(3) != 0 {
+	if static {
+		argsT = staticArgs[r.Intn(len(staticArgs))]
+	} else if r.Intn(3) != 0 {
 		argsT = textHeavyArgs(r)
 	} else {
 		argsT = argsType(r)
